@@ -21,6 +21,12 @@ pub enum Norm {
     Unknown,
 }
 
+/// The associated type of generated trait `TrK` is `OutK` (distinct names: the writer's name disambiguation renames
+/// clashing names, which is C22/C23's subject, not C07's).
+fn assoc_of(trait_name: &str) -> String {
+    format!("Out{}", trait_name.trim_start_matches("Tr"))
+}
+
 fn proj(tr: &str, name: &str, args: Vec<MTy>) -> MTy {
     MTy::App(format!("@proj:{}:{}", tr, name), args)
 }
@@ -125,7 +131,7 @@ pub fn gen_assoc(r: &mut Rng) -> (MProgram, Vec<AssocGoal>) {
     }
     let ntr = 1 + r.below(2);
     for i in 0..ntr {
-        p.traits.push(MTrait { name: format!("Tr{}", i), nparams: if r.chance(20) { 1 } else { 0 }, assoc: vec!["A".into()], ..Default::default() });
+        p.traits.push(MTrait { name: format!("Tr{}", i), nparams: if r.chance(20) { 1 } else { 0 }, assoc: vec![format!("Out{}", i)], ..Default::default() });
     }
     let ctors: Vec<(&str, usize)> = vec![("A", 0), ("B", 0), ("C", 0), ("Vec", 1), ("Bx", 1), ("Pair", 2)];
     for ti in 0..ntr {
@@ -161,7 +167,7 @@ pub fn gen_assoc(r: &mut Rng) -> (MProgram, Vec<AssocGoal>) {
                 1 if ar > 0 => MTy::app("Vec", vec![MTy::Var(r.below(ar))]),
                 2 | 3 if !proj_ok.is_empty() => {
                     let (tn, wa) = r.pick(&proj_ok).clone();
-                    let pr = proj(&tn, "A", wa);
+                    let pr = proj(&tn, &assoc_of(&tn), wa);
                     if r.chance(50) {
                         MTy::app("Bx", vec![pr])
                     } else {
@@ -171,7 +177,7 @@ pub fn gen_assoc(r: &mut Rng) -> (MProgram, Vec<AssocGoal>) {
                 4 => MTy::app("Pair", vec![MTy::nullary("A"), MTy::nullary("C")]),
                 _ => MTy::nullary(*r.pick(&["A", "B", "C"])),
             };
-            p.impls.push(MImpl { nvars: ar, head: MPred::new(&tr.name, args), wheres, positive: true, assoc_vals: vec![("A".into(), val)], ..Default::default() });
+            p.impls.push(MImpl { nvars: ar, head: MPred::new(&tr.name, args), wheres, positive: true, assoc_vals: vec![(assoc_of(&tr.name), val)], ..Default::default() });
         }
     }
     // goals
@@ -220,7 +226,8 @@ pub fn gen_assoc(r: &mut Rng) -> (MProgram, Vec<AssocGoal>) {
         } else {
             vec![]
         };
-        let p_text = ty_text(&proj(&tr.name, "A", args.clone()));
+        let an = assoc_of(&tr.name);
+        let p_text = ty_text(&proj(&tr.name, &an, args.clone()));
         let wrap = |body: String, exists: bool| -> String {
             let inner = if exists { format!("exists<V0> {{ {} }}", body) } else { body };
             let inner = if hyps.is_empty() { inner } else { format!("if ({}) {{ {} }}", hyps.iter().map(pred_text).collect::<Vec<_>>().join("; "), inner) };
@@ -232,13 +239,13 @@ pub fn gen_assoc(r: &mut Rng) -> (MProgram, Vec<AssocGoal>) {
         };
         let targs = if args.len() > 1 { format!("{}, ", args[1..].iter().map(ty_text).collect::<Vec<_>>().join(", ")) } else { String::new() };
         match gi % 3 {
-            0 | 2 => goals.push(AssocGoal { text: wrap(format!("Normalize({} -> V0)", p_text), true), exs: vec![0], kind: GoalKind::Normalize { tr: tr.name.clone(), name: "A".into(), args: args.clone() }, hyps: hyps.clone() }),
+            0 | 2 => goals.push(AssocGoal { text: wrap(format!("Normalize({} -> V0)", p_text), true), exs: vec![0], kind: GoalKind::Normalize { tr: tr.name.clone(), name: an.clone(), args: args.clone() }, hyps: hyps.clone() }),
             _ => {
                 if r.chance(50) {
-                    goals.push(AssocGoal { text: wrap(format!("{}: {}<{}A = V0>", ty_text(&args[0]), tr.name, targs), true), exs: vec![0], kind: GoalKind::EqExists { tr: tr.name.clone(), name: "A".into(), args: args.clone() }, hyps: hyps.clone() });
+                    goals.push(AssocGoal { text: wrap(format!("{}: {}<{}{} = V0>", ty_text(&args[0]), tr.name, targs, an), true), exs: vec![0], kind: GoalKind::EqExists { tr: tr.name.clone(), name: an.clone(), args: args.clone() }, hyps: hyps.clone() });
                 } else {
                     let y = ground(r, 1, &leaves);
-                    goals.push(AssocGoal { text: wrap(format!("{}: {}<{}A = {}>", ty_text(&args[0]), tr.name, targs, ty_text(&y)), false), exs: vec![], kind: GoalKind::EqClosed { tr: tr.name.clone(), name: "A".into(), args: args.clone(), y }, hyps: hyps.clone() });
+                    goals.push(AssocGoal { text: wrap(format!("{}: {}<{}{} = {}>", ty_text(&args[0]), tr.name, targs, an, ty_text(&y)), false), exs: vec![], kind: GoalKind::EqClosed { tr: tr.name.clone(), name: an.clone(), args: args.clone(), y }, hyps: hyps.clone() });
                 }
             }
         }
